@@ -10,6 +10,8 @@ with their exact underflow condition, and the gas cost table.  They hold for ALL
 import BytomModel.Lemmas.VMNum
 import BytomModel.Lemmas.VMStep
 import BytomModel.Lemmas.VMHeap
+import BytomModel.Lemmas.VMValue
+import BytomModel.Lemmas.VMRefineOps2
 namespace BytomModel.Props.C08
 open BytomModel.VM
 
@@ -193,5 +195,168 @@ theorem baseCost_values : baseCost 0x61 = 1 ∧ baseCost 0x6b = 2 ∧ baseCost 0
 /-- the cost table applies to both instances of the model -/
 example : MemLaws valueMem := valueMem_laws
 example : MemLaws (heapMem goGrow) := heapMem_laws goGrow
+
+/-! ### stack manipulation and splice opcodes on the reference (value) model:
+exact resulting stack, gas and error for explicitly given stacks -/
+
+section
+open OpM
+
+/-- DUP copies the top item; it costs 1 plus the item's memory -/
+theorem dup_spec (prog : Bytes) (pc nextPC : Nat) (rl d : Int) (x : Bytes) (rest alt : List Bytes) (depth : Nat) (er : Bool) (hg : 1 + (8 + (x.length : Int)) ≤ rl) :
+    nDup valueMem 1 ⟨(), ⟨prog, pc, nextPC, rl, d, x :: rest, alt, depth, er⟩⟩
+      = .ok () ⟨(), ⟨prog, pc, nextPC, rl - 1 - (8 + (x.length : Int)), d, x :: x :: rest, alt, depth, er⟩⟩ := by
+  vm_eval [nDup, dupLoop_one, dupLoop_zero]
+
+/-- DROP removes the top item and refunds its memory -/
+theorem drop_spec (prog : Bytes) (pc nextPC : Nat) (rl d : Int) (x : Bytes) (rest alt : List Bytes) (depth : Nat) (er : Bool) (hg : 1 ≤ rl) :
+    opDrop valueMem ⟨(), ⟨prog, pc, nextPC, rl, d, x :: rest, alt, depth, er⟩⟩
+      = .ok () ⟨(), ⟨prog, pc, nextPC, rl - 1 + (8 + (x.length : Int)), d, rest, alt, depth, er⟩⟩ := by
+  vm_eval [opDrop]
+
+/-- SWAP exchanges the two top items -/
+theorem swap_spec (prog : Bytes) (pc nextPC : Nat) (rl d : Int) (x2 x1 : Bytes) (rest alt : List Bytes) (depth : Nat) (er : Bool) (hg : 1 ≤ rl) :
+    (opSwap : OpM (St Unit Bytes) Unit) ⟨(), ⟨prog, pc, nextPC, rl, d, x2 :: x1 :: rest, alt, depth, er⟩⟩
+      = .ok () ⟨(), ⟨prog, pc, nextPC, rl - 1, d, x1 :: x2 :: rest, alt, depth, er⟩⟩ := by
+  vm_eval [opSwap]
+
+/-- OVER copies the second item to the top -/
+theorem over_spec (prog : Bytes) (pc nextPC : Nat) (rl d : Int) (x2 x1 : Bytes) (rest alt : List Bytes) (depth : Nat) (er : Bool) (hg : 1 + (8 + (x1.length : Int)) ≤ rl) :
+    opOver valueMem ⟨(), ⟨prog, pc, nextPC, rl, d, x2 :: x1 :: rest, alt, depth, er⟩⟩
+      = .ok () ⟨(), ⟨prog, pc, nextPC, rl - 1 - (8 + (x1.length : Int)), d, x1 :: x2 :: x1 :: rest, alt, depth, er⟩⟩ := by
+  vm_eval [opOver]
+
+/-- NIP removes the second item -/
+theorem nip_spec (prog : Bytes) (pc nextPC : Nat) (rl d : Int) (x2 x1 : Bytes) (rest alt : List Bytes) (depth : Nat) (er : Bool) (hg : 1 ≤ rl) :
+    opNip valueMem ⟨(), ⟨prog, pc, nextPC, rl, d, x2 :: x1 :: rest, alt, depth, er⟩⟩
+      = .ok () ⟨(), ⟨prog, pc, nextPC, rl - 1 + (8 + (x1.length : Int)), d, x2 :: rest, alt, depth, er⟩⟩ := by
+  vm_eval [opNip]
+
+/-- TUCK copies the top item below the second -/
+theorem tuck_spec (prog : Bytes) (pc nextPC : Nat) (rl d : Int) (x2 x1 : Bytes) (rest alt : List Bytes) (depth : Nat) (er : Bool) (hg : 1 + (8 + (x2.length : Int)) ≤ rl) :
+    opTuck valueMem ⟨(), ⟨prog, pc, nextPC, rl, d, x2 :: x1 :: rest, alt, depth, er⟩⟩
+      = .ok () ⟨(), ⟨prog, pc, nextPC, rl - 1 - (8 + (x2.length : Int)), d, x2 :: x1 :: x2 :: rest, alt, depth, er⟩⟩ := by
+  vm_eval [opTuck]
+
+/-- 2DROP removes two items -/
+theorem twoDrop_spec (prog : Bytes) (pc nextPC : Nat) (rl d : Int) (x2 x1 : Bytes) (rest alt : List Bytes) (depth : Nat) (er : Bool) (hg : 2 ≤ rl) :
+    op2Drop valueMem ⟨(), ⟨prog, pc, nextPC, rl, d, x2 :: x1 :: rest, alt, depth, er⟩⟩
+      = .ok () ⟨(), ⟨prog, pc, nextPC, rl - 2 + (8 + (x2.length : Int)) + (8 + (x1.length : Int)), d, rest, alt, depth, er⟩⟩ := by
+  vm_eval [op2Drop]
+
+/-- 2SWAP exchanges the two top pairs -/
+theorem twoSwap_spec (prog : Bytes) (pc nextPC : Nat) (rl d : Int) (x4 x3 x2 x1 : Bytes) (rest alt : List Bytes) (depth : Nat) (er : Bool) (hg : 2 ≤ rl) :
+    (op2Swap : OpM (St Unit Bytes) Unit) ⟨(), ⟨prog, pc, nextPC, rl, d, x4 :: x3 :: x2 :: x1 :: rest, alt, depth, er⟩⟩
+      = .ok () ⟨(), ⟨prog, pc, nextPC, rl - 2, d, x2 :: x1 :: x4 :: x3 :: rest, alt, depth, er⟩⟩ := by
+  vm_eval [op2Swap]
+
+/-- 2ROT moves the third pair to the top -/
+theorem twoRot_spec (prog : Bytes) (pc nextPC : Nat) (rl d : Int) (x6 x5 x4 x3 x2 x1 : Bytes) (rest alt : List Bytes) (depth : Nat) (er : Bool) (hg : 2 ≤ rl) :
+    (op2Rot : OpM (St Unit Bytes) Unit) ⟨(), ⟨prog, pc, nextPC, rl, d, x6 :: x5 :: x4 :: x3 :: x2 :: x1 :: rest, alt, depth, er⟩⟩
+      = .ok () ⟨(), ⟨prog, pc, nextPC, rl - 2, d, x2 :: x1 :: x6 :: x5 :: x4 :: x3 :: rest, alt, depth, er⟩⟩ := by
+  vm_eval [op2Rot]
+
+/-- 2DUP copies the top pair -/
+theorem twoDup_spec (prog : Bytes) (pc nextPC : Nat) (rl d : Int) (x2 x1 : Bytes) (rest alt : List Bytes) (depth : Nat) (er : Bool) (hg : 2 + (8 + (x1.length : Int)) + (8 + (x2.length : Int)) ≤ rl) :
+    nDup valueMem 2 ⟨(), ⟨prog, pc, nextPC, rl, d, x2 :: x1 :: rest, alt, depth, er⟩⟩
+      = .ok () ⟨(), ⟨prog, pc, nextPC, rl - 2 - (8 + (x1.length : Int)) - (8 + (x2.length : Int)), d, x2 :: x1 :: x2 :: x1 :: rest, alt, depth, er⟩⟩ := by
+  vm_eval [nDup, dupLoop_two, dupLoop_one, dupLoop_zero]
+
+/-- TOALTSTACK moves the top item to the alt stack (no memory accounting) -/
+theorem toAltStack_spec (prog : Bytes) (pc nextPC : Nat) (rl d : Int) (x : Bytes) (rest alt : List Bytes) (depth : Nat) (er : Bool) (hg : 2 ≤ rl) :
+    (opToAltStack : OpM (St Unit Bytes) Unit) ⟨(), ⟨prog, pc, nextPC, rl, d, x :: rest, alt, depth, er⟩⟩
+      = .ok () ⟨(), ⟨prog, pc, nextPC, rl - 2, d, rest, x :: alt, depth, er⟩⟩ := by
+  vm_eval [opToAltStack]
+
+/-- FROMALTSTACK moves the top alt item back -/
+theorem fromAltStack_spec (prog : Bytes) (pc nextPC : Nat) (rl d : Int) (x : Bytes) (rest alt : List Bytes) (depth : Nat) (er : Bool) (hg : 2 ≤ rl) :
+    (opFromAltStack : OpM (St Unit Bytes) Unit) ⟨(), ⟨prog, pc, nextPC, rl, d, rest, x :: alt, depth, er⟩⟩
+      = .ok () ⟨(), ⟨prog, pc, nextPC, rl - 2, d, x :: rest, alt, depth, er⟩⟩ := by
+  vm_eval [opFromAltStack]
+
+/-- ROT moves the third item to the top -/
+theorem rot_spec (prog : Bytes) (pc nextPC : Nat) (rl d : Int) (x3 x2 x1 : Bytes) (rest alt : List Bytes) (depth : Nat) (er : Bool) (hg : 2 ≤ rl) :
+    (opRot : OpM (St Unit Bytes) Unit) ⟨(), ⟨prog, pc, nextPC, rl, d, x3 :: x2 :: x1 :: rest, alt, depth, er⟩⟩
+      = .ok () ⟨(), ⟨prog, pc, nextPC, rl - 2, d, x1 :: x3 :: x2 :: rest, alt, depth, er⟩⟩ := by
+  vm_eval [opRot, rot]
+
+/-- SWAP needs two items -/
+theorem swap_underflow (prog : Bytes) (pc nextPC : Nat) (rl d : Int) (x : Bytes) (rest alt : List Bytes) (depth : Nat) (er : Bool) (hg : 1 ≤ rl) :
+    (opSwap : OpM (St Unit Bytes) Unit) ⟨(), ⟨prog, pc, nextPC, rl, d, [x], alt, depth, er⟩⟩
+      = .err .dataStackUnderflow ⟨(), ⟨prog, pc, nextPC, rl - 1, d, [x], alt, depth, er⟩⟩ := by
+  vm_eval [opSwap]
+
+/-- DROP needs one item -/
+theorem drop_underflow (prog : Bytes) (pc nextPC : Nat) (rl d : Int) (rest alt : List Bytes) (depth : Nat) (er : Bool) (hg : 1 ≤ rl) :
+    opDrop valueMem ⟨(), ⟨prog, pc, nextPC, rl, d, [], alt, depth, er⟩⟩
+      = .err .dataStackUnderflow ⟨(), ⟨prog, pc, nextPC, rl - 1, d, [], alt, depth, er⟩⟩ := by
+  vm_eval [opDrop]
+
+/-- FROMALTSTACK on an empty alt stack: ErrAltStackUnderflow -/
+theorem fromAltStack_underflow (prog : Bytes) (pc nextPC : Nat) (rl d : Int) (rest alt : List Bytes) (depth : Nat) (er : Bool) (hg : 2 ≤ rl) :
+    (opFromAltStack : OpM (St Unit Bytes) Unit) ⟨(), ⟨prog, pc, nextPC, rl, d, rest, [], depth, er⟩⟩
+      = .err .altStackUnderflow ⟨(), ⟨prog, pc, nextPC, rl - 2, d, rest, [], depth, er⟩⟩ := by
+  vm_eval [opFromAltStack]
+
+/-- CAT concatenates (second item first); it temporarily charges the combined length -/
+theorem cat_spec (prog : Bytes) (pc nextPC : Nat) (rl d : Int) (b a : Bytes) (rest alt : List Bytes) (depth : Nat) (er : Bool) (hg : 4 + ((a.length : Int) + (b.length : Int)) ≤ rl) :
+    opCat valueMem ⟨(), ⟨prog, pc, nextPC, rl, d, b :: a :: rest, alt, depth, er⟩⟩
+      = .ok () ⟨(), ⟨prog, pc, nextPC, rl - 4 - ((a.length : Int) + (b.length : Int)), d - (8 + (b.length : Int)) - (8 + (a.length : Int)) + -((a.length : Int) + (b.length : Int)) + (8 + ((a ++ b).length : Int)), (a ++ b) :: rest, alt, depth, er⟩⟩ := by
+  vm_eval [opCat]
+
+/-- LEFT n: the first n bytes; the size is charged temporarily -/
+theorem left_spec (prog : Bytes) (pc nextPC : Nat) (rl d : Int) (nb str : Bytes) (n : Nat) (rest alt : List Bytes)
+    (depth : Nat) (er : Bool) (hn : asBigInt nb = .ok n) (h63 : n < two63) (hlen : n ≤ str.length)
+    (hg : 4 + (n : Int) ≤ rl) :
+    ∃ d', opLeft valueMem ⟨(), ⟨prog, pc, nextPC, rl, d, nb :: str :: rest, alt, depth, er⟩⟩
+      = .ok () ⟨(), ⟨prog, pc, nextPC, rl - 4 - n, d', str.take n :: rest, alt, depth, er⟩⟩ := by
+  refine Exists.intro ?w ?h
+  case h =>
+    vm_eval [opLeft, popInt64, popBigInt, popBytes, ofExcept_run, hn, bigIntInt64_of_lt n h63, valueMem]
+    rfl
+
+/-- LEFT with a size beyond the string: ErrBadValue -/
+theorem left_out_of_range (prog : Bytes) (pc nextPC : Nat) (rl d : Int) (nb str : Bytes) (n : Nat) (rest alt : List Bytes)
+    (depth : Nat) (er : Bool) (hn : asBigInt nb = .ok n) (h63 : n < two63) (hlen : str.length < n)
+    (hg : 4 + (n : Int) ≤ rl) :
+    ∃ s', opLeft valueMem ⟨(), ⟨prog, pc, nextPC, rl, d, nb :: str :: rest, alt, depth, er⟩⟩ = .err .badValue s' := by
+  refine Exists.intro ?w ?h
+  case h =>
+    vm_eval [opLeft, popInt64, popBigInt, popBytes, ofExcept_run, hn, bigIntInt64_of_lt n h63, valueMem]
+    rfl
+
+/-- RIGHT n: the last n bytes -/
+theorem right_spec (prog : Bytes) (pc nextPC : Nat) (rl d : Int) (nb str : Bytes) (n : Nat) (rest alt : List Bytes)
+    (depth : Nat) (er : Bool) (hn : asBigInt nb = .ok n) (h63 : n < two63) (hlen : n ≤ str.length)
+    (hg : 4 + (n : Int) ≤ rl) :
+    ∃ d', opRight valueMem ⟨(), ⟨prog, pc, nextPC, rl, d, nb :: str :: rest, alt, depth, er⟩⟩
+      = .ok () ⟨(), ⟨prog, pc, nextPC, rl - 4 - n, d', str.drop (str.length - n) :: rest, alt, depth, er⟩⟩ := by
+  refine ⟨d - (8 + (nb.length : Int)) + -(n : Int) - (8 + (str.length : Int)) +
+    (8 + ((str.length : Int) - ((str.length - n : Nat) : Int))), ?_⟩
+  vm_eval [opRight, popInt64, popBigInt, popBytes, ofExcept_run, hn, bigIntInt64_of_lt n h63, valueMem]
+  apply List.take_of_length_le
+  rw [List.length_drop]
+
+/-- PICK / ROLL take only the low 64 bits of the index (recorded implementation behaviour):
+    adding a multiple of 2^64 to the index changes nothing -/
+theorem pick_index_low64 (n k : Nat) : pickOffset (n + two64 * k) = pickOffset n := by
+  unfold pickOffset
+  have : (n + two64 * k) % two64 = n % two64 := by
+    rw [Nat.add_mul_mod_self_left]
+  rw [this]
+
+/-- for an index below 2^63 − 1 the offset is `index + 1` -/
+theorem pickOffset_small (n : Nat) (h : n + 1 < two63) : pickOffset n = .ok ((n : Int) + 1) := by
+  have h63 : two63 = 9223372036854775808 := by unfold two63; norm_num
+  have h64 : two64 = 18446744073709551616 := by unfold two64; norm_num
+  have h1 : n % two64 = n := Nat.mod_eq_of_lt (by omega)
+  have h2 : u64ToI64 n = (n : Int) := by
+    unfold u64ToI64; rw [if_pos (by omega)]; rfl
+  unfold pickOffset
+  simp only [h1, h2]
+  have h3 : ¬ ((n : Int) = maxInt64) := by unfold maxInt64; omega
+  rw [if_neg h3]
+
+end
 
 end BytomModel.Props.C08
